@@ -3,13 +3,16 @@
    stateless, so every case is one step.  On the model: the exactness clauses hold for every case. *)
 EXTENDS Rating, Json
 CONSTANTS CostTexts,   \* set of sequences of 1-character strings
-          Subs, Values, EmitOneIn
+          Subs, Values,
+          Others,      \* amounts the AVP that the sub-type does NOT rate may carry next to the rated one (<<>> = absent): a request
+                       \* may report consumption and ask for a quota at once; only the sub-type decides what is priced
+          EmitOneIn
 VARIABLES case, done
 vars == <<case, done>>
 Init == case = <<>> /\ done = FALSE
 Pick == /\ ~done
-        /\ \E cs \in CostTexts, s \in Subs, v \in Values :
-             case' = [cost |-> cs, sub |-> s, consumed |-> IF s = "debit" THEN v ELSE <<>>, quota |-> IF s = "reserve" THEN v ELSE <<>>]
+        /\ \E cs \in CostTexts, s \in Subs, v \in Values, o \in Others :
+             case' = [cost |-> cs, sub |-> s, consumed |-> IF s = "debit" THEN v ELSE o, quota |-> IF s = "reserve" THEN v ELSE o]
         /\ done' = TRUE
 Next == Pick
 Spec == Init /\ [][Next]_vars
